@@ -8,6 +8,7 @@ import (
 	"strings"
 	"time"
 
+	"github.com/gammazero/nexus/v3/transport/serialize"
 	"github.com/gammazero/nexus/v3/wamp"
 )
 
@@ -33,6 +34,8 @@ type SOp struct {
 	Prog   bool
 	Scribble bool
 	Transport wamp.Dict
+	Net      string // "", "raw" or "ws": attach over a simulated network transport
+	Ser      int    // serializer for network transports (0 json, 1 msgpack, 2 cbor)
 }
 
 func (o SOp) String() string {
@@ -43,6 +46,9 @@ func (o SOp) String() string {
 	switch o.Kind {
 	case "join":
 		s += fmt.Sprintf("(local=%v,authid=%s,role=%s,x=%s)", o.Local, o.Authid, o.Role, o.Xattr)
+		if o.Net != "" {
+			s += fmt.Sprintf("[%s/%d]", o.Net, o.Ser%3)
+		}
 	case "leave":
 		s += fmt.Sprintf("(how=%d)", o.How)
 	default:
@@ -181,6 +187,11 @@ func (q *Seq) Exec(op SOp) bool {
 		}
 		q.Compare(r, what+fmt.Sprintf("->S#%d", sym), m.Unsubscribe(idx, req, sym), nil)
 	case "pub":
+		if len(op.Args) > 1 && (s.NetC != nil || s.WSC != nil) {
+			if _, unser := op.Args[1].(complex128); unser {
+				return false // a networked publisher cannot even send it
+			}
+		}
 		msg := &wamp.Publish{Request: req, Options: op.Opts, Topic: wamp.URI(op.URI), Arguments: op.Args, ArgumentsKw: op.Kw}
 		if !q.sendGated(s, idx, r, what, msg) {
 			return true
@@ -191,6 +202,21 @@ func (q *Seq) Exec(op SOp) bool {
 		}
 		if len(exp) > 1 {
 			c.Probe("publish_multi_recipient")
+		}
+		if len(modelArgs) > 1 {
+			if _, unser := modelArgs[1].(complex128); unser {
+				// no serializer can encode it: a recipient behind a network
+				// transport loses this message as a whole (and nothing else)
+				var keep []Exp
+				for _, e := range exp {
+					if rs := q.Slots[e.To]; rs != nil && (rs.NetC != nil || rs.WSC != nil) && strings.HasPrefix(e.Text, "EVENT(") {
+						c.Probe("unserializable_dropped")
+						continue
+					}
+					keep = append(keep, e)
+				}
+				exp = keep
+			}
 		}
 		q.Compare(r, what, exp, nil)
 	case "reg":
@@ -444,6 +470,9 @@ func msgRequest(m wamp.Message) (wamp.ID, bool) {
 
 func (q *Seq) execJoin(op SOp) bool {
 	c := q.C
+	if op.Net != "" {
+		op.Local = false
+	}
 	realm := op.Realm
 	r := q.Realms[realm]
 	hello := wamp.Dict{"roles": op.Roles}
@@ -456,7 +485,23 @@ func (q *Seq) execJoin(op SOp) bool {
 	if !op.Local {
 		hello["authmethods"] = wamp.List{"vstatic"}
 	}
-	s := q.W.NewSess(fmt.Sprintf("s%d.%d", op.Slot, len(q.Slots)), wamp.URI(realm), op.Local, 64, hello)
+	name := fmt.Sprintf("s%d.%d", op.Slot, len(q.Slots))
+	var s *Sess
+	sz := []serialize.Serialization{serialize.JSON, serialize.MSGPACK, serialize.CBOR}[op.Ser%3]
+	switch op.Net {
+	case "raw":
+		s = q.W.NewRawSess(c, name, wamp.URI(realm), sz, 0, 0, 64, q.NetFaults, hello)
+		if s == nil {
+			c.Violf("step %d (%s): rawsocket handshake failed", q.Step, op.String())
+			return true
+		}
+		c.Probe("session_over_rawsocket")
+	case "ws":
+		s = q.W.NewWSSess(c, name, wamp.URI(realm), sz, 64, 64, 0, hello)
+		c.Probe("session_over_websocket")
+	default:
+		s = q.W.NewSess(name, wamp.URI(realm), op.Local, 64, hello)
+	}
 	idx := len(q.Slots)
 	q.Slots = append(q.Slots, s)
 	s.Scribble = op.Scribble && op.Local
